@@ -45,7 +45,26 @@ pub fn components(um: &UserModel) -> Map<String, Value> {
     out.insert("panes".into(), Value::Array(sheets.iter().map(|s| json!({"fr": s["fr"], "fc": s["fc"], "grid": s["grid"]})).collect()));
     out.insert("names".into(), d["names"].clone());
     out.insert("links".into(), Value::Array(sheets.iter().map(|s| s["links"].clone()).collect()));
-    out.insert("cfs".into(), Value::Array(sheets.iter().map(|s| s["cfs"].clone()).collect()));
+    // conditional formats: the priority numbers are only an order (the importer renumbers them from 1)
+    let cfs: Vec<Value> = sheets
+        .iter()
+        .map(|s| {
+            let list = s["cfs"].as_array().cloned().unwrap_or_default();
+            let mut prios: Vec<i64> = list.iter().map(|c| c["priority"].as_i64().unwrap_or(0)).collect();
+            prios.sort_unstable();
+            Value::Array(
+                list.iter()
+                    .map(|c| {
+                        let mut c = c.clone();
+                        let rank = prios.iter().position(|p| *p == c["priority"].as_i64().unwrap_or(0)).unwrap_or(0) + 1;
+                        c["priority"] = json!(rank);
+                        c
+                    })
+                    .collect(),
+            )
+        })
+        .collect();
+    out.insert("cfs".into(), Value::Array(cfs));
     out
 }
 
